@@ -218,7 +218,16 @@ def run(chk, replay=None):
                                   {'kind': 'edges', 'start': float(s), 'end': float(end), 'step': float(h),
                                    'expected': expected[:8], 'first_bad_index': first,
                                    'got': repr(got)[:300]})
-                elif nb in (7, 66):
+                if ok and nb >= 2:
+                    # an upper limit that is not itself an edge (4.95 .. 9.0 by 0.1): the edges are still start + k * step,
+                    # up to the last one not above the limit
+                    got2 = guarded(fn, float(s), float(end + h * Fraction(3, 10)), float(h))
+                    chk.count()
+                    if isinstance(got2, Raised) or [float(x) for x in got2] != expected:
+                        chk.violation('edges:%s:upper limit between two edges' % fn_name,
+                                      {'kind': 'edges', 'start': float(s), 'end': float(end + h * Fraction(3, 10)), 'step': float(h),
+                                       'expected': expected[:8], 'got': repr(got2)[:300]})
+                if ok and nb in (7, 66):
                     # the array handed out belongs to the caller (bin centres are made with `edges += step / 2`): asking
                     # again - also while the embedding program has other process-wide settings in force - gives the edges,
                     # not the caller's array
